@@ -144,6 +144,7 @@ class Container(typing.Generic[Symbol]):
             self.symbols: Container.Context.Symbols = self.Symbols()
             self.tables: Container.Context.Tables = self.Tables()
             self.origins: dict['dsl.Origin', 'parser.Source'] = {}
+            self.aliased: int = 0  # depth of references being visited
 
         @property
         def dirty(self) -> bool:
@@ -492,14 +493,19 @@ class Visitor(
     def visit_table(self, source: 'dsl.Table') -> None:
         self.context.origins[source] = origin = self.resolve_source(source)
         features = [self.generate_feature(f) for f in sorted(self.context.tables[source].fields)]
-        predicate = self.context.tables[source].predicate
+        # row filters are keyed by the bare table - its scan under a reference (alias) must not inherit them
+        predicate = self.context.tables[source].predicate if not self.context.aliased else None
         if predicate is not None:
             predicate = self.generate_feature(predicate)
         super().visit_table(source)
         self.context.symbols.push(self.generate_table(origin, features, predicate))
 
     def visit_reference(self, source: 'dsl.Reference') -> None:
-        super().visit_reference(source)
+        self.context.aliased += 1
+        try:
+            super().visit_reference(source)
+        finally:
+            self.context.aliased -= 1
         origin, handle = self.generate_reference(self.context.symbols.pop(), source.name)
         self.context.origins[source] = handle
         self.context.symbols.push(origin)
